@@ -329,7 +329,8 @@ pub fn run_check(check: &dyn Check, cfg: &RunCfg) -> i32 {
     for (sig, (count, msg, wi, idx)) in &a.violations {
         let k = known.iter().find(|k| k.property == id && k.status == "known" && k.signature == *sig);
         if let Some(k) = k {
-            println!("KNOWN-FINDING: property={} {} [{}] ({} occurrences)", id, k.what, sig, count);
+            let replay = write_replay(cfg, id, sig, msg, *wi, *idx);
+            println!("KNOWN-FINDING: property={} {} [{}] ({} occurrences, e.g. {})", id, k.what, sig, count, replay);
             known_hits.push(json!({"signature": sig, "occurrences": count, "what": k.what}));
         } else {
             let replay = write_replay(cfg, id, sig, msg, *wi, *idx);
